@@ -78,8 +78,10 @@ Theorem C06_held_by_kind : forall cf c g,
 Proof. exact cheld_table. Qed.
 Theorem C06_entry_holds : forall v g c e, ent_ok v g c e = true <-> (ci_uuid e = c -> ci_gen e = Some g /\ 28 <= v).
 Proof. exact ent_ok_spec. Qed.
+Print Assumptions C06_entry_holds.
 Theorem C06_entry_null : forall v c e, ent_null v c e = true <-> (ci_uuid e = c -> ci_gen e = None /\ 28 <= v).
 Proof. exact ent_null_spec. Qed.
+Print Assumptions C06_entry_null.
 Print Assumptions C06_held_by_kind.
 
 (* while c exists (c_alive: in the start state and after every step): of the requests holding g for c AT MOST ONE increments c *)
@@ -120,6 +122,7 @@ Theorem C06_null_needs_no_end :
   cy_run 5 [0; 0; 0; 0; 1; 1; 1; 1; 2; 2; 2; 2]%nat [cy_n5a; AllocDelete 5; cy_n5b] = ([204; 204; 204], None, Some 1, [1; 0; 1]) /\
   map (cnull0 cx_cf 5) [cy_n5a; AllocDelete 5; cy_n5b] = [true; false; true].
 Proof. exact c06a_null_needs_no_end. Qed.
+Print Assumptions C06_null_needs_no_end.
 
 (* the two recorded findings in this model: both are about ANSWERS, neither contradicts the statements about increments *)
 Theorem C06_double_wipe_all_kinds :
